@@ -10,14 +10,18 @@ from .containers import RealContainers
 from .refmodels import RefPQ, RefPos
 
 PROP = "C17"
-LEAN_TARGETS = ["Asynkit.Props.C17", "Asynkit.Lemmas.GenEq", "Asynkit.Lemmas.GenEqPosPQ"]
-PROPS_FILES = ["Asynkit/Props/C17.lean", "Asynkit/Lemmas/GenEq.lean", "Asynkit/Lemmas/GenEqPosPQ.lean"]
+LEAN_TARGETS = ["Asynkit.Props.C17", "Asynkit.Lemmas.GenEq", "Asynkit.Lemmas.GenEqPQ", "Asynkit.Lemmas.GenEqPosPQ"]
+PROPS_FILES = ["Asynkit/Props/C17.lean", "Asynkit/Lemmas/GenEq.lean", "Asynkit/Lemmas/GenEqPQ.lean", "Asynkit/Lemmas/GenEqPosPQ.lean"]
 DRIVERS = ["PQ"]
 TRUSTED = [
     "Lean 4.33 kernel; axioms ⊆ {propext, Classical.choice, Quot.sound} (audited per theorem each run)",
     "hand-written models Asynkit/Model/{Heap,PQ,PosPQ}.lean, tied to src/asynkit/tools.py and "
     "experimental/priority.py by the differential correspondence of this run (lean/Drivers/PQ.lean)",
     "translator/py2lean.py for PriEntry.__lt__ / PriorityValue.__lt__ (Gen definitions proved equal to the model's)",
+    "translator/pq2lean.py + Asynkit/Model/PyRt.lean: every method of tools.PriorityQueue is re-translated "
+    "statement by statement on each run and proved equal to Model/PQ.lean (Lemmas/GenEqPQ.lean), so for "
+    "that class the hand-written model is no longer trusted, only the translator's reading of Python "
+    "(lists, for/break/else, heapq calls, aliasing by index; callables and == on objects are pure)",
     "translator/pospq2lean.py re-translates every method of PosPriorityQueue from the source on each run "
     "(Gen/PosPQ.lean, over the PQ model's operations); Lemmas/GenEqPosPQ.lean proves each equal to Model/PosPQ "
     "(trusted: the statement-level translator, the self._pq.<m> -> PQ.<m> binding, by-value PriorityValue objects)",
